@@ -27,6 +27,7 @@ class Ctx(object):
         self.case = None
         self.max_samples = 6
         self._vkeys = {}
+        self.on_new_witness = None
 
     # -- recording
     def ev(self, n=1):
@@ -52,6 +53,13 @@ class Ctx(object):
         self.count('violations_raw')
         if n < 3:   # keep a few witnesses per mechanism
             self.violations.append({'key': key, 'what': what, 'detail': detail, 'case': self.case})
+            if self.on_new_witness is not None:
+                self.on_new_witness(n == 0)
+
+    def wants(self, key):
+        """False once enough witnesses of a mechanism are kept: callers skip formatting further ones (a value that keeps
+        growing because of the very defect being reported can make each further repr() arbitrarily expensive)."""
+        return self._vkeys.get(key, 0) < 3
 
     def unsure(self, why):
         if why not in self.inconclusive:
@@ -128,6 +136,20 @@ def main(argv):
     mine = [c for j, c in enumerate(all_cases) if j % nshards == shard]
     t0 = time.time()
     ran = skipped = 0
+    last_ckpt = [time.time()]
+
+    def checkpoint(force=False):
+        # what has been observed so far survives a watchdog kill of this shard (a case that never returns on a changed
+        # tree must not take the violations already witnessed with it)
+        if not force and time.time() - last_ckpt[0] < 8:
+            return
+        last_ckpt[0] = time.time()
+        rep = ctx.report(ran, skipped + (len(mine) - ran - skipped))
+        rep['partial'] = True
+        with open(out + '.tmp', 'w') as f:
+            json.dump(rep, f, default=str)
+        os.replace(out + '.tmp', out)
+    ctx.on_new_witness = checkpoint     # a new mechanism is written out at once, further witnesses at most every 8 s
     try:
         if hasattr(mod, 'setup'):
             mod.setup(ctx)
@@ -143,6 +165,7 @@ def main(argv):
                     json.dumps(c, default=str)[:200], type(e).__name__, e,
                     traceback.format_exc()[-1200:]))
             ran += 1
+            checkpoint()
         ctx.case = None
         if hasattr(mod, 'finish'):
             mod.finish(ctx)
